@@ -386,6 +386,44 @@ def h_rejected(cx, sp):
     compare(cx, 'valid_edit_after_rejections', views(obj), views(fresh(obj)))
 
 
+def h_knot_rmw(cx, sp):
+    """normalize_kv=False: evaluate, edit the knot-vector list the caller holds, assign the SAME list object again"""
+    obj, info = shapes.build(cx, sp, normalize_kv=False)
+    if obj.pdimension == 1:
+        obj.sample_size = 3
+    else:
+        obj.sample_size_u, obj.sample_size_v = 3, 2
+    # the caller's own list objects are the ones assigned
+    attr = 'knotvector' if obj.pdimension == 1 else 'knotvector_u'
+    mine = list(getattr(obj, attr))
+    setattr(obj, attr, mine)
+    views(obj)
+    p = shapes.degrees(obj)[0]
+    mine[p + 1] = (mine[p] + mine[p + 1]) / 2          # (specs with an interior knot; the domain is unchanged)
+    setattr(obj, attr, mine)
+    compare(cx, 'after_knot_rmw', views(obj), views(fresh(obj)))
+
+
+def h_partly_rejected(cx, sp):
+    """one insertion call naming two directions of which the second is inadmissible: whatever is applied, all views agree"""
+    obj = _build(cx, sp)
+    views(obj)
+    pv = obj.degree_v
+    kv_v = list(obj.knotvector_v)
+    x_u = (obj.knotvector_u[obj.degree_u] + obj.knotvector_u[-(obj.degree_u + 1)]) / 2
+    x_v = kv_v[pv + 1] if len(kv_v) > 2 * (pv + 1) else (kv_v[pv] + kv_v[-(pv + 1)]) / 2
+    try:
+        obj.insert_knot(u=x_u, v=x_v, num_u=1, num_v=pv + 1)
+    except Exception:
+        pass
+    compare(cx, 'after_partly_rejected_insert', views(obj), views(fresh(obj)))
+    try:
+        obj.remove_knot(u=x_u, v=x_v, num_u=1, num_v=pv + 2)
+    except Exception:
+        pass
+    compare(cx, 'after_partly_rejected_remove', views(obj), views(fresh(obj)))
+
+
 def h_deepcopy(cx, sp, mut, edit_copy):
     obj = _build(cx, sp)
     v0 = views(obj)
@@ -599,6 +637,10 @@ def instances(tier):
                 out.append(inst('%s bbox [%s]' % (spec_name(sp), m), h_bbox, timeout=1200, sp=sp, mut=m))
     for sp in specs[:6]:
         out.append(inst('%s rejected assignments' % spec_name(sp), h_rejected, timeout=1200, sp=sp))
+    for sp in (spec('curve', (2,), ((1,),), rational=False), spec('curve', (3,), ((1, 1),), rational=True), spec('surface', (1, 2), ((1,), ()), rational=False)):
+        out.append(inst('%s knot vector edited in the caller list and assigned again' % spec_name(sp), h_knot_rmw, timeout=1200, sp=sp))
+    for sp in (spec('surface', (1, 2), ((), (1,)), rational=False), spec('surface', (2, 2), ((), ()), rational=True)):
+        out.append(inst('%s partly rejected two-direction insert / remove' % spec_name(sp), h_partly_rejected, timeout=1800, sp=sp))
     for rational in (False, True):
         for sc in ('add', 'edit_element', 'sample_size', 'add_list', 'deepcopy', 'failed_batch_add'):
             out.append(inst('container %s %s' % ('rat' if rational else 'nonrat', sc), h_container, timeout=900, rational=rational, scenario=sc))
